@@ -95,7 +95,7 @@ func runCatchupSuite(seed uint64, n int, out *Out, stats *Stats) {
 		first := served[0].Timestamp()
 		rec.Validate(first)
 		if start == 1 {
-			extra := r.Intn(2)
+			extra := r.Intn(int(set.Limit))
 			for k := 0; k < extra && len(host.AllBlocks())+1 < len(served) && uint64(len(host.AllBlocks())+1) < set.Limit; k++ {
 				rec.Validate(first + int64(k+1)*set.Interval)
 			}
